@@ -1,9 +1,9 @@
-import IofloModel.Model.HttpValet
+import IofloModel.Model.HttpPorter
 import IofloModel.Drv.Proto
 /-! driver for the HTTP message parser model (engine `httpmsg`).
 
 request  `<req|rsp>[!] <METHOD> <max> <op> ...`   (`!` = the unrepaired `except HTTPException` of parseMessage, `~` = parms/trails not reset: before fixes/D29c)   op = `f<hex>` (msg.extend + parse) | `p` (parse) | `c` (close) |
-                                               `n` (makeParser + parse)
+                                               `n` (makeParser + parse) | `m` (makeParser only)
 reply    the parser fields, ` | ` separated, in the format of harness/props/c29.py `run_impl`
 request  `valet <max> <0|1> <op> ...`          the connection table of a Valet (`1` = repaired parseMessage):
                                                `k<ca>` connect, `r<ca>:<hex>` receive, `s` serviceAll
@@ -63,6 +63,7 @@ def runOps : St → List String → Option St
     if op = "c" then runOps (close s) ops
     else if op = "p" then runOps (parse s) ops
     else if op = "n" then runOps (parse (makeParser s)) ops
+    else if op = "m" then runOps (makeParser s) ops
     else match op.toList with
       | 'f' :: h => match hexToBytes? (String.ofList h) with
         | some b => runOps (feed s b) ops
@@ -76,6 +77,7 @@ def valetOps (max : Nat) (cve : Bool) : Valet → List Nat → List String → O
     if v.raised then some (v, cas) else
     match op.toList with
     | ['s'] => valetOps max cve v.serviceAll cas ops
+    | ['t'] => valetOps max cve v.serviceStewards cas ops
     | 'k' :: d => match (String.ofList d).toNat? with
       | some ca => valetOps max cve (v.connect ca max cve) (if cas.contains ca then cas else cas ++ [ca]) ops
       | none => none
